@@ -492,7 +492,7 @@ def _move_does_not_overwrite_rule(ctx, res) -> None:
     mv = ops.methods.get("move")
     if mv is None:
         raise AnalysisError("anchor=_ResourceOperations.move missing")
-    node = common.inline_private_calls(idx, mv, keep=tuple(k for k in ops.methods if "fscommands" in k))
+    node = common.inline_private_calls(idx, mv, keep=tuple(__import__("sa.rules.c13", fromlist=["x"])._command_sources(ops)[1]))
     cfg = CFG(node)
     ps = mv.call_params()
     n = 0
